@@ -344,6 +344,26 @@ impl Prop for C18 {
     }
 }
 
+/// Reference value of a JSON document for the JSON route: whether it is a number at all is decided by the generic
+/// serde_json f64 parser; its *value*, when the document is a plain JSON number literal, is the correctly rounded
+/// decimal (str::parse::<f64>), so that the route must agree bit for bit with the text and number routes.
+pub fn json_reference(doc: &str) -> Option<f64> {
+    let generic = serde_json::from_str::<f64>(doc).ok()?;
+    let t = doc.trim_matches(|c| c == ' ' || c == '\n' || c == '\t' || c == '\r');
+    let b = t.as_bytes();
+    let plain = !b.is_empty()
+        && b.iter().all(|c| c.is_ascii_digit() || matches!(c, b'-' | b'+' | b'.' | b'e' | b'E'))
+        && b.iter().any(|c| c.is_ascii_digit());
+    if plain {
+        if let Ok(exact) = t.parse::<f64>() {
+            if exact.is_finite() {
+                return Some(exact);
+            }
+        }
+    }
+    Some(generic)
+}
+
 pub fn check_case(c: &Case, st: &mut Stats) -> Result<(), Failure> {
     st.eval();
     let ty = c.ty;
@@ -395,9 +415,9 @@ pub fn check_case(c: &Case, st: &mut Stats) -> Result<(), Failure> {
                 judge("text", reference, Ok(r), &format!("{:?}", format!("{}", v)))?;
             }
             if v.is_finite() {
+                // serde_json prints the shortest round-trip decimal; reading it back must give the same bits
                 let doc = serde_json::to_string(&v).unwrap();
-                let reference = serde_json::from_str::<f64>(&doc).ok();
-                judge("json", reference, catch(|| json_route(ty, &doc)), &doc)?;
+                judge("json", Some(v), catch(|| json_route(ty, &doc)), &doc)?;
             }
         }
         Input::Text(s) => {
@@ -414,7 +434,7 @@ pub fn check_case(c: &Case, st: &mut Stats) -> Result<(), Failure> {
             }
         }
         Input::Json(doc) => {
-            let reference = serde_json::from_str::<f64>(doc).ok();
+            let reference = json_reference(doc);
             judge("json", reference, catch(|| json_route(ty, doc)), doc)?;
             nontrivial = reference.map_or(true, near);
             st.class("route_json");
@@ -423,7 +443,7 @@ pub fn check_case(c: &Case, st: &mut Stats) -> Result<(), Failure> {
             }
         }
         Input::Composite { kind, field } => {
-            let reference = serde_json::from_str::<f64>(field).ok();
+            let reference = json_reference(field);
             let r = catch(|| composite_route(ty, *kind, field))
                 .map_err(|p| Failure::new(format!("panic:composite{}:{}", kind, tn), "no panic", format!("{} on field {}", p, field)))?;
             let Some((doc, res)) = r else {
